@@ -629,8 +629,8 @@ Fixpoint eopts_eqb (a b : list eopt) : bool :=
    hint and the core count the harness reports (num_cpus::get()), and be >= 2.
    `first_len` = Some h when the caller knows the length hint h (None = "unknown") of the raw
    chain's first-node Source *)
-Definition expl_opts_ok (safe : nat -> bool) (ds : list (list ndesc)) (first_is_src : bool)
-           (first_len : option (option nat)) (e : eexplain) : bool :=
+Definition expl_opts_ok (strict : bool) (safe : nat -> bool) (ds : list (list ndesc))
+           (first_is_src : bool) (first_len : option (option nat)) (e : eexplain) : bool :=
   let expected := expl_opts safe ds in
   match ee_suggested e with
   | None =>
@@ -639,7 +639,7 @@ Definition expl_opts_ok (safe : nat -> bool) (ds : list (list ndesc)) (first_is_
       (negb first_is_src || match first_len with Some None => true | _ => false end)
       && eopts_eqb expected (ee_opts e)
   | Some p =>
-      first_is_src && (2 <=? p)
+      first_is_src && ((if strict then 2 else 1) <=? p)
       && match rev (ee_opts e) with
          | EOParts (Some n) p' :: r =>
              Nat.eqb p p' && eopts_eqb expected (rev r)
@@ -650,8 +650,10 @@ Definition expl_opts_ok (safe : nat -> bool) (ds : list (list ndesc)) (first_is_
                 end
              (* the count is exactly planner.rs's formula of the reported length hint and the
                 machine's core count *)
+             (* `strict` (the agree side) only: the property asks that explain reports the plan
+                that runs, not a particular sizing heuristic *)
              && match ee_cpus e with
-                | Some c => onat_eqb (suggest_partitions (Some n) c) (Some p)
+                | Some c => negb strict || onat_eqb (suggest_partitions (Some n) c) (Some p)
                 | None => true
                 end
          | _ => false       (* without a length hint there is no suggestion *)
@@ -689,7 +691,7 @@ Definition explain_agrees (raw : list node) (planned : bool) (e : eexplain) : bo
   && strs_eqb (map kind_name (explain mplan)) (map es_type (ee_steps e))
   && sizes_ok (model_src_sizes mplan) (stated_sizes (ee_steps e))
   && (if planned
-      then expl_opts_ok (m_safe raw) mds (first_is_source (nth 0 mds []))
+      then expl_opts_ok true (m_safe raw) mds (first_is_source (nth 0 mds []))
                         (match raw with NB (BSource s) :: _ => Some (s_hint s) | _ => None end) e
       else expl_bare_ok e).
 (* prop: explain describes the chain that ran (observed descriptor `plan_d`, real operators' hints)
@@ -698,7 +700,7 @@ Definition explain_prop (ds : list (list ndesc)) (ois : list opinfo) (plan_d : l
            (planned : bool) (e : eexplain) : bool :=
   expl_chain_ok (o_cost ois) plan_d e
   && (if planned
-      then expl_opts_ok (o_safe ois) ds (first_is_source (nth 0 ds []))
+      then expl_opts_ok false (o_safe ois) ds (first_is_source (nth 0 ds []))
                         (match stated_sizes (ee_steps e) with Some n :: _ => Some n | _ => None end) e
       else expl_bare_ok e).
 
